@@ -105,11 +105,26 @@ def _ext_is_ws(e, args, kw, node, st):
     return _z3.Or(*[code == a if a == b else _z3.And(code >= a, code <= b) for a, b in runs])
 
 
+def _ext_first_to_last(e, args, kw, node, st):
+    """first_to_last_nonblank(s) for len(s) <= 8: s[lo:hi] with lo = the first position holding a non-whitespace character
+    (len(s) when there is none) and hi = one past the last such position (0 when there is none); '' when lo >= hi"""
+    from pyvc.values import to_z3
+    z = to_z3(args[0])
+    ln = _z3.Length(z)
+    nonws = lambda k: _z3.And(k < ln, _z3.Not(_ext_is_ws(e, [_z3.SubString(z, k, 1)], {}, None, None)))
+    lo, hi = ln, _z3.IntVal(0)
+    for k in range(7, -1, -1):
+        lo = _z3.If(nonws(k), _z3.IntVal(k), lo)
+    for k in range(0, 8):
+        hi = _z3.If(nonws(k), _z3.IntVal(k + 1), hi)
+    return _z3.If(lo >= hi, _z3.StringVal(""), _z3.SubString(z, lo, hi - lo))
+
+
 # Python's str.isspace() characters (what str.strip() removes), computed from the running interpreter
 WS_CHARS = "".join(chr(c) for c in range(0x30000) if chr(c).isspace())
-EXTERNALS = {"spec.is_ws": _ext_is_ws, "builtins.format": _ext_format, "str.strip": _ext_strip, "spec.fmt83": _ext_fmt_spec("8.3f"), "spec.fmt62": _ext_fmt_spec("6.2f"),
+EXTERNALS = {"spec.is_ws": _ext_is_ws, "spec.first_to_last_nonblank": _ext_first_to_last, "builtins.format": _ext_format, "str.strip": _ext_strip, "spec.fmt83": _ext_fmt_spec("8.3f"), "spec.fmt62": _ext_fmt_spec("6.2f"),
              "spec.float_ok": _ext_float_ok}
-SPEC_EXTERNALS = {"is_ws": "spec.is_ws", "strip": "str.strip", "fmt83": "spec.fmt83", "fmt62": "spec.fmt62", "float_ok": "spec.float_ok"}
+SPEC_EXTERNALS = {"is_ws": "spec.is_ws", "first_to_last_nonblank": "spec.first_to_last_nonblank", "strip": "str.strip", "fmt83": "spec.fmt83", "fmt62": "spec.fmt62", "float_ok": "spec.float_ok"}
 UFUNS = {}
 LEMMAS = {}
 
@@ -159,11 +174,12 @@ WS_ONE = "[" + WS_CHARS + "]"
 WS_STAR = WS_ONE + "*"
 
 LEMMAS["strip_definition"] = {
-    # DEFINITION of the uninterpreted py_strip (= str.strip() without arguments): s = a + strip(s) + b with a, b runs of
-    # whitespace, and strip(s) is empty or neither starts nor ends with whitespace.  (Exactly one string satisfies this.)
+    # DEFINITION of the uninterpreted py_strip (= str.strip() without arguments) on texts of at most 8 characters (every PDB
+    # field is at most 8 columns wide): the part from the first to the last non-whitespace character, '' when there is none
+    # (first_to_last_nonblank: an explicit case analysis over the 8 positions, see _ext_first_to_last)
     "kind": "definition", "params": ["s"], "shapes": ["str"],
-    "ensures": ["exists(lambda a, b: s == a + strip(s) + b and matches(a, WS_STAR) and matches(b, WS_STAR), sorts={'a': 'str', 'b': 'str'})",
-                "strip(s) == '' or (not is_ws(strip(s)[:1]) and not is_ws(strip(s)[-1:]))"]}
+    "requires": ["len(s) <= 8"],
+    "ensures": ["strip(s) == first_to_last_nonblank(s)"]}
 
 PIECES = ["p_rec", "p_ser", "p_nam", "p_alt", "p_res", "p_chn", "p_seq", "p_ico", "p_x", "p_y", "p_z", "p_occ", "p_tmp", "p_ele", "p_chg"]
 WIDTHS = [6, 5, 4, 1, 3, 1, 4, 1, 8, 8, 8, 6, 6, 2, 2]
